@@ -154,22 +154,24 @@ pub fn run(r: &mut Report) {
     }
     // several functionaries of one step file the SAME delegated layout (threshold 2): each one's own sub-directory must pass on its own
     #[derive(Clone, Copy, Debug)]
-    enum Second { Complete, InnerMissing, InnerUnauthorised, InnerInParentDir, InnerOnlyInFirstDir, InnerFailsRule, InnerDissent }
+    enum Second { Complete, InnerMissing, InnerUnauthorised, InnerInParentDir, InnerOnlyInFirstDir, InnerFailsRule, InnerDissent, Expired }
     for which in [0usize, 1] {
-        for f in [Second::Complete, Second::InnerMissing, Second::InnerUnauthorised, Second::InnerInParentDir, Second::InnerOnlyInFirstDir, Second::InnerFailsRule, Second::InnerDissent] {
+        for f in [Second::Complete, Second::InnerMissing, Second::InnerUnauthorised, Second::InnerInParentDir, Second::InnerOnlyInFirstDir, Second::InnerFailsRule, Second::InnerDissent, Second::Expired] {
             let d = tmpdir();
             let inner_rule = vec![in_toto::models::rule::ArtifactRule::Create("z".into()), in_toto::models::rule::ArtifactRule::Disallow("*".into())];
-            let sub = layout(vec![step("inner", 1, &[&kb], allow_all(), inner_rule)], vec![], &[&kb], 30);
+            let sub = layout(vec![step("inner", 1, &[&kb], allow_all(), inner_rule.clone())], vec![], &[&kb], 30);
+            // (C06) the faulty functionary's copy of the delegated layout expired yesterday, everything else about it is in order
+            let sub_expired = layout(vec![step("inner", 1, &[&kb], allow_all(), inner_rule)], vec![], &[&kb], -1);
             let filers = [&ka, &kc];
             for (i, k) in filers.iter().enumerate() {
-                let sub_mb = signed_layout(&sub, &[k]);
+                let sub_mb = signed_layout(if i == which && matches!(f, Second::Expired) { &sub_expired } else { &sub }, &[k]);
                 write_link(d.path(), "a", k.key_id(), &sub_mb);
                 let subdir = d.path().join(format!("a.{}", k.key_id().prefix()));
                 std::fs::create_dir_all(&subdir).unwrap();
                 let faulty = i == which;
                 let good = signed_link(&link("inner", &[], &[("z", 7)]), &[&kb]);
                 match (faulty, f) {
-                    (false, _) | (true, Second::Complete) => write_link(&subdir, "inner", kb.key_id(), &good),
+                    (false, _) | (true, Second::Complete) | (true, Second::Expired) => write_link(&subdir, "inner", kb.key_id(), &good),
                     (true, Second::InnerMissing) | (true, Second::InnerOnlyInFirstDir) => {}
                     (true, Second::InnerUnauthorised) => write_link(&subdir, "inner", kc.key_id(), &signed_link(&link("inner", &[], &[("z", 7)]), &[&kc])),
                     (true, Second::InnerInParentDir) => write_link(d.path(), "inner", kb.key_id(), &good),
